@@ -26,10 +26,12 @@ var StrProfiles = map[string]map[string]string{
 	"astral": {"s1": "😀", "s2": "a😀b𝄞"},
 	"empty":  {"s1": "", "s2": "z"},
 	"mixed":  {"s1": "é😀\"'", "s2": "plain"},
+	// printf verbs, a literal backslash-n, braces, dollar, backtick, a lone trailing %
+	"pct": {"s1": "50% off", "s2": "%d a%sb %% %! 100%v {} $x `q` \\n \\\\ %"},
 }
 
 // StrProfileNames in a fixed order.
-var StrProfileNames = []string{"ascii", "esc", "bmp", "astral", "empty", "mixed"}
+var StrProfileNames = []string{"ascii", "esc", "bmp", "astral", "empty", "mixed", "pct"}
 
 // IntProfiles maps the spec's abstract integers to concrete ones.
 var IntProfiles = map[string]map[int]int64{
